@@ -229,6 +229,8 @@ def judge(ctx: Ctx, traces: list[dict], behs: list[dict], cfg: str, sig) -> None
         ev = t["ev"][0]
         for c in ev["converted"]:
             ctx.drift.append(f"annotation converted differently: {c}")
+    for line in sorted(set(ctx.drift))[:6]:
+        print(f"DRIFT (no verdict): {line[:300]}")
 
 
 def run(ctx: Ctx) -> None:
